@@ -14,5 +14,7 @@ Definition dispatch (e : sexp) : sexp :=
   | Lst (Sym "chk" :: args) => run_chk args
   | Lst (Sym "c01" :: args) => run_c01 args
   | Lst (Sym "egm" :: args) => run_egm args
+  | Lst (Sym "egs" :: args) => run_egs args
+  | Lst (Sym "egall" :: args) => run_egall args
   | _ => Sym "unknown-case"
   end.
